@@ -195,8 +195,8 @@ def run(tier="quick", replay=None):
     for bb, _, s in f.stmts():
         if is_self_field(s["pl"], SELF, "row"):
             inc_blocks.append(bb)
-    flag = None
-    # the bool tested by the branch that immediately guards the row-counter increment
+    # the bool(s) deciding whether a row is returned: everything the guard of the row-counter increment is copied from
+    flags = set()
     best = -1
     doms = f.dominators()
     for bb, b in enumerate(f.blocks):
@@ -206,26 +206,30 @@ def run(tier="quick", replay=None):
         l = op_local(t["discr"])
         if l is None or f.local_ty(l) != "bool" or not all(f.dominates(bb, ib) for ib in inc_blocks):
             continue
-        # the increment must lie on exactly one side of the switch
         sides = [tgt for tgt in f.succ(bb) if any(ib in f.reachable(tgt, avoid=[x for x in f.succ(bb) if x != tgt]) for ib in inc_blocks)]
         if len(sides) != 1:
             continue
         depth_ = len(doms.get(bb, ()))
         if depth_ > best:
-            src = fl.back_pure([l], stop=lambda x: 0 < x <= f.argc)
-            cand = [x for x in src if x > f.argc and f.local_ty(x) == "bool" and
-                    sum(1 for _, _, s in f.stmts() if s["pl"]["l"] == x and not s["pl"]["p"] and s["rv"]["k"] == "use"
-                        and s["rv"]["op"]["k"] == "const") >= 2]
-            if cand:
-                best = depth_
-                flag = cand[0]
+            # copies only (use of a whole bool local): the flag and what it is copied from (e.g. a helper's return slot)
+            chain = {l}
+            changed = True
+            while changed:
+                changed = False
+                for _, _, s in f.stmts():
+                    if s["pl"]["l"] in chain and not s["pl"]["p"] and s["rv"]["k"] == "use":
+                        sl = op_local(s["rv"]["op"])
+                        if sl is not None and not op_place(s["rv"]["op"])["p"] and sl not in chain and f.local_ty(sl) == "bool":
+                            chain.add(sl)
+                            changed = True
+            best = depth_
+            flags = chain
     set_blocks = []
-    if flag is not None:
-        for bb, _, s in f.stmts():
-            if s["pl"]["l"] == flag and not s["pl"]["p"] and s["rv"]["k"] == "use" and s["rv"]["op"]["k"] == "const":
-                c = s["rv"]["op"]["c"]
-                if c.get("int") in (1, "1") or c.get("bool") is True:
-                    set_blocks.append(bb)
+    for bb, _, s in f.stmts():
+        if s["pl"]["l"] in flags and not s["pl"]["p"] and s["rv"]["k"] == "use" and s["rv"]["op"]["k"] == "const":
+            c = s["rv"]["op"]["c"]
+            if c.get("int") in (1, "1") or c.get("bool") is True:
+                set_blocks.append(bb)
     # arm entries: blocks that first read a downcast of the terminal variant
     nterm = 0
     for var, key in sorted(TERMINAL.items()):
